@@ -133,14 +133,23 @@ static size_t key_bytes(const ParamSpec &sp) {
     return (size_t) sp.k * sp.N * sp.t * (1 << sp.basebit) * (sp.n + 1) * 4 * 2 + (size_t) sp.n * (sp.k + 1) * sp.l * (sp.k + 1) * sp.N * 12;
 }
 
+// keys handed out during the current run are pinned: a run that needs two large keys (the cloud-key scenario's "secret material of
+// another key" histories with a default-size set) used to evict - and free - the first one while it was still in use; seen as a
+// null dereference in the export of a cloud key that only occurred after three earlier runs had filled the cache (thorough
+// C17, reported by the process-history replay of worker deaths).
+static uint64_t g_run_epoch = 1;
+static std::map<std::string, uint64_t> g_key_epoch;
+void begin_run() { g_run_epoch++; }
 KeyCtx *get_key(const ParamSpec &sp, uint64_t kseed) {
     std::string id = sp.str() + "#" + std::to_string(kseed);
     auto it = g_keys.find(id);
-    if (it != g_keys.end()) return it->second.get();
-    // evict (oldest first) to stay under ~0.9 GB per worker
-    while (!g_key_order.empty() && g_key_bytes + key_bytes(sp) > (size_t) 900e6) {
-        std::string old = g_key_order.front();
-        g_key_order.erase(g_key_order.begin());
+    if (it != g_keys.end()) { g_key_epoch[id] = g_run_epoch; return it->second.get(); }
+    // evict (oldest first, never a key of the current run) to stay under ~0.9 GB per worker
+    for (size_t q = 0; q < g_key_order.size() && g_key_bytes + key_bytes(sp) > (size_t) 900e6;) {
+        std::string old = g_key_order[q];
+        if (g_key_epoch[old] == g_run_epoch) { q++; continue; }
+        g_key_order.erase(g_key_order.begin() + (long) q);
+        g_key_epoch.erase(old);
         auto o = g_keys.find(old);
         if (o != g_keys.end()) { g_key_bytes -= key_bytes(o->second->spec); g_keys.erase(o); }
     }
@@ -165,11 +174,12 @@ KeyCtx *get_key(const ParamSpec &sp, uint64_t kseed) {
     kc->cloud_hash = obs::hash_cloud(kc->ck);
     KeyCtx *r = kc.get();
     g_keys[id] = std::move(kc);
+    g_key_epoch[id] = g_run_epoch;
     g_key_order.push_back(id);
     g_key_bytes += key_bytes(sp);
     return r;
 }
-void drop_keys() { g_keys.clear(); g_key_order.clear(); g_key_bytes = 0; }
+void drop_keys() { g_keys.clear(); g_key_order.clear(); g_key_epoch.clear(); g_key_bytes = 0; }
 
 void KeyCtx::compute_ks_noise() {
     if (ks_noise_ready) return;
